@@ -8,6 +8,7 @@ pub mod jsread;
 pub mod gen_ops;
 pub mod gen_schema;
 pub mod gen_syntax;
+pub mod genproj;
 pub mod gqljson;
 pub mod model;
 pub mod real;
@@ -42,6 +43,7 @@ pub fn run_property(ctx: &Ctx, rep: &mut Report) -> Result<(), String> {
         "C12" => props::c12::run(ctx, rep),
         "C13" => props::c13::run(ctx, rep),
         "C16" => props::c16::run(ctx, rep),
+        "C18" => props::c18::run(ctx, rep),
         "C19" => props::c19::run(ctx, rep),
         "C20" => props::c20::run(ctx, rep),
         p => return Err(format!("unknown property {p}")),
@@ -61,6 +63,7 @@ pub fn replay_case(case: &Value, ctx: &Ctx) -> Result<Vec<Violation>, String> {
         "C12" => Ok(props::c12::replay(case)),
         "C13" => Ok(props::c13::replay(case)),
         "C16" => Ok(props::c16::replay(case, ctx)),
+        "C18" => Ok(props::c18::replay(case, ctx)),
         "C19" => Ok(props::c19::replay(case)),
         "C20" => Ok(props::c20::replay(case)),
         p => Err(format!("unknown property {p}")),
